@@ -18,7 +18,7 @@ RULE = ("texts: (1) random strings of 1-40 tokens over the Mech token alphabet (
         "mika tokens); (2) every statement-level source of /repo/tests/interpreter.rs and code lines of the .mec files with 1-3 token-level "
         "mutations (delete / duplicate / swap / insert bracket or quote / truncate); (3) .mec files of the repository whole (quick: the ones "
         "up to 2.5 kB; thorough: all) and prefixes cut at grapheme-ish boundaries and at code-point boundaries inside a combining sequence "
-        "(quick: ~60 prefixes of each of 6 files, capped at 2.5 kB; thorough: 300 prefixes of every file, capped at 12 kB); (4) valid programs "
+        "(quick: ~60 prefixes of each of 6 files, capped at 2.5 kB; thorough: 80 prefixes of every file, capped at 8 kB); (4) valid programs "
         "with combining characters / emoji / box-drawing spliced in; (5) nesting-depth ladders and stray mika brackets (known findings). "
         "non-trivial = distinct text judged ok (tree or in-range report)")
 ASSUMPTIONS = [
@@ -256,7 +256,7 @@ def generate(tier, rng):
     def emit(text, **tags):
         if MIKA_CLOSE in text and tags.get("stream") not in ("mika-close",):
             text = text.replace(MIKA_CLOSE, "⸢")            # stray closes hang (finding mika-close-loop): only the dedicated stream has them
-        if tags.get("stream") not in ("nest", "mec-whole", "mec-prefix", "fence"):
+        if tags.get("stream") not in ("nest", "mec-whole", "mec-prefix", "fence", "chain"):
             text = cap_nesting(text)
         if text in seen:
             return None
@@ -283,14 +283,14 @@ def generate(tier, rng):
             add(emit(a + b, stream="short"))
 
     # (1) random token strings
-    n_alpha = 700 if quick else 12000
+    n_alpha = 700 if quick else 6000
     for _ in range(n_alpha):
         n = rng.choice([1, 2, 3, 4, 5, 6, 8, 10, 12, 16, 24, 40])
         add(emit(random_string(rng, n), stream="alphabet", ntok=n))
 
     # (2) mutated programs
     pool = list(isrc) + code_lines(files, rng, 400 if quick else 4000)
-    n_mut = 900 if quick else 15000
+    n_mut = 900 if quick else 8000
     if pool:
         for i in range(n_mut):
             s = pool[i % len(pool)] if i < len(pool) and not quick else rng.choice(pool)
@@ -304,7 +304,7 @@ def generate(tier, rng):
 
     # (4) valid programs with unicode spliced in
     if pool:
-        for _ in range(150 if quick else 3000):
+        for _ in range(150 if quick else 1500):
             s = rng.choice(pool)[:400]
             add(emit(splice_unicode(s, rng), stream="unicode-splice"))
 
@@ -326,9 +326,31 @@ def generate(tier, rng):
         t = read_text(p)
         if not t:
             continue
-        npre, cap = (60, 2500) if quick else (300, 12000)
+        npre, cap = (60, 2500) if quick else (80, 8000)
         for k in prefix_positions(t, rng, npre, cap):
             add(emit(t[:k], stream="mec-prefix", file=os.path.relpath(p, REPO)))
+
+    # (8) long runs of prefix operators / kind brackets (recursion depth = run length; >= ~450-900 overflows the stack: finding
+    #     stack-overflow-prefix-run) and long left-recursive chains (iterative: fine)
+    for d in (50, 200):
+        add(emit("x := " + "-" * d + "1", stream="prefix-run", run=d))
+        add(emit("x := " + "!" * d + "true", stream="prefix-run", run=d))
+        add(emit("x" + "<" * d, stream="prefix-run", run=d))
+    add(emit("x := " + "-" * 1500 + "1", stream="prefix-run", run=1500))
+    add(emit("x" + "<" * 900, stream="prefix-run", run=900))
+    if not quick:
+        add(emit("x := " + "!" * 1500 + "true", stream="prefix-run", run=1500))
+        add(emit("x := " + "-!" * 800 + "1", stream="prefix-run", run=1600))
+        add(emit("-" * 1500, stream="prefix-run", run=1500))
+    for d in ((100,) if quick else (100, 1000)):
+        add(emit("x := 1" + " + 1" * d, stream="chain", n=d))
+        add(emit("x := a" + ".b" * d, stream="chain", n=d))
+        add(emit("x" + "[1]" * d, stream="chain", n=d))
+        add(emit("> " * d + "q", stream="chain", n=d))
+        add(emit("hello " + "(" * d + " world", stream="chain", n=d))
+        add(emit("x := 1\n" * d, stream="chain", n=d))
+        add(emit("\n" * d, stream="chain", n=d))
+        add(emit("a" * (10 * d), stream="chain", n=d))
 
     # (7) every code-point prefix (cuts inside grapheme clusters included) of unicode-rich sources
     rich = ["é\u0301x := 👨\u200d👩\u200d👧 + 1\r\ny\u0303 := \"e\u0301🇨🇦\" -- ❤\ufe0f\n├ a\n└ b\n",
